@@ -30,9 +30,12 @@ Definition f_sign (x : F) : F :=
   | None => BinarySingleNaN.B754_nan
   end.
 
+(* float(int): round to nearest even *)
+Definition f_ofZ (z : Z) : F := BinarySingleNaN.binary_normalize 53 1024 prec_ok emax_ok mode_NE z 0 false.
+
 Definition fops : numops F :=
   Build_numops F f_add f_sub f_mul f_lt f_eqb (@BinarySingleNaN.Babs 53 1024) f_sign
-               (@BinarySingleNaN.is_finite 53 1024) f_zero.
+               (@BinarySingleNaN.is_finite 53 1024) f_zero f_ofZ.
 
 (* structural identity of two doubles (all NaNs identified): used to compare snapshots and to
    look values up in the rendering table *)
@@ -61,6 +64,6 @@ Definition gen_cfg {T} (of_bits : Z -> T) (timer_ticks : Z) : cfg T :=
     (map (fun r => match r with
                    | (n, id, rows, cap) => mk_trow n id (map (map (option_map of_bits)) rows) cap
                    end) g_table)
-    g_sys_layout g_commands g_bad g_good_prefix timer_ticks.
+    g_sys_layout g_commands g_bad g_good_prefix timer_ticks (of_bits g_pt_timegap_bits).
 
 Definition fcfg (timer_ticks : Z) : cfg F := gen_cfg f_of_bits timer_ticks.
